@@ -45,17 +45,19 @@ func (c *ctx) typeNameability() {
 				}
 			}
 			scope, exported := false, false
-			ast.Inspect(fd.Body, func(n ast.Node) bool {
-				if call, ok := n.(*ast.CallExpr); ok {
-					switch fn := astx.Callee(info, call); {
-					case fn == nil:
-					case fullName(fn) == "(*go/types.Scope).LookupParent" || fn.Name() == "Parent" && fn.Pkg() != nil && fn.Pkg().Path() == "go/types":
-						scope = true
-					case fn.Name() == "Exported" && fn.Pkg() != nil && fn.Pkg().Path() == "go/types":
-						exported = true
+			c.eachReachedBody(fd, 2, func(body *ast.BlockStmt) {
+				ast.Inspect(body, func(n ast.Node) bool {
+					if call, ok := n.(*ast.CallExpr); ok {
+						switch fn := astx.Callee(info, call); {
+						case fn == nil:
+						case fullName(fn) == "(*go/types.Scope).LookupParent" || fn.Name() == "Parent" && fn.Pkg() != nil && fn.Pkg().Path() == "go/types":
+							scope = true
+						case fn.Name() == "Exported" && fn.Pkg() != nil && fn.Pkg().Path() == "go/types":
+							exported = true
+						}
 					}
-				}
-				return true
+					return true
+				})
 			})
 			if takesType && scope && exported {
 				checks = append(checks, fd)
@@ -70,19 +72,26 @@ func (c *ctx) typeNameability() {
 	// the walk reaches the named types inside composite types: a type switch over the kinds of go/types
 	for _, ch := range checks {
 		covered := map[string]bool{}
-		ast.Inspect(ch.Body, func(n ast.Node) bool {
-			ts, ok := n.(*ast.TypeSwitchStmt)
-			if !ok {
-				return true
-			}
-			for _, cs := range ts.Body.List {
-				for _, te := range cs.(*ast.CaseClause).List {
-					if t := info.TypeOf(te); t != nil {
-						covered[t.String()] = true
+		c.eachReachedBody(ch, 2, func(body *ast.BlockStmt) {
+			ast.Inspect(body, func(n ast.Node) bool {
+				switch x := n.(type) {
+				case *ast.TypeSwitchStmt:
+					for _, cs := range x.Body.List {
+						for _, te := range cs.(*ast.CaseClause).List {
+							if t := info.TypeOf(te); t != nil {
+								covered[t.String()] = true
+							}
+						}
+					}
+				case *ast.TypeAssertExpr:
+					if x.Type != nil {
+						if t := info.TypeOf(x.Type); t != nil {
+							covered[t.String()] = true
+						}
 					}
 				}
-			}
-			return true
+				return true
+			})
 		})
 		var missing []string
 		for _, k := range []string{"Named", "TypeParam", "Pointer", "Slice", "Array", "Chan", "Map", "Signature", "Struct"} {
@@ -242,8 +251,8 @@ func (c *ctx) typeNameability() {
 			})
 		}
 		record(p.body)
-		if d := declOf(astx.Callee(info, p.check)); d != nil && !isCheckDecl(d) {
-			record(d.Body)
+		if d := declOf(astx.Callee(info, p.check)); d != nil {
+			record(d.Body) // the helper the printer calls (a wrapper of the check, or the check itself)
 		}
 		if len(written) == 0 {
 			c.s.Bad("G33", p.label+" keeps what the check finds", c.pos(p.check), "the result of the nameability check is not stored in the generator: it has no effect")
@@ -364,6 +373,41 @@ func (c *ctx) typeNameability() {
 			c.s.Check(good, "G33", fmt.Sprintf("%s.%s|unnameable types are reported before the output is written (%s)", owner, dn, p.label), c.pos(fd), "", "what the nameability check recorded is not read back and returned between rendering and writing the output: the check has no effect")
 		}
 	}
+}
+
+// eachReachedBody calls f with the body of fd and of the functions of the generator it calls (methods and
+// functions declared in the package), up to the given depth.
+func (c *ctx) eachReachedBody(fd *ast.FuncDecl, depth int, f func(body *ast.BlockStmt)) {
+	info := c.inter.TypesInfo
+	seen := map[*ast.FuncDecl]bool{}
+	var walk func(d *ast.FuncDecl, k int)
+	walk = func(d *ast.FuncDecl, k int) {
+		if d == nil || d.Body == nil || seen[d] {
+			return
+		}
+		seen[d] = true
+		f(d.Body)
+		if k == 0 {
+			return
+		}
+		ast.Inspect(d.Body, func(n ast.Node) bool {
+			call, ok := n.(*ast.CallExpr)
+			if !ok {
+				return true
+			}
+			fn := astx.Callee(info, call)
+			if fn == nil || fn.Pkg() != c.inter.Types {
+				return true
+			}
+			for _, f2 := range c.files {
+				if d2 := astx.DeclOfFunc(info, []*ast.File{f2.file}, fn); d2 != nil {
+					walk(d2, k-1)
+				}
+			}
+			return true
+		})
+	}
+	walk(fd, depth)
 }
 
 // topCalls: the calls a statement makes at its own level (not inside nested function literals or nested
